@@ -9,7 +9,7 @@ ARE `Layout.drawText`.  Here the two are joined: running the bodies extracted fr
 returns a surface whose row `y` shows line `y`. -/
 namespace VaxisModel.Props.C16Exec
 open VaxisModel.Model VaxisModel.Model.WrapDraw VaxisModel.Model.SurfExec
-open VaxisModel.Model.Wrap (Cell sumW richLines Lines)
+open VaxisModel.Model.Wrap (Cell sumW richLines plainLines Lines)
 open VaxisModel.Lemmas.WrapDraw VaxisModel.Lemmas.SurfExec VaxisModel.Props.C16Draw VaxisModel.Props.C14Body
 open VaxisModel.Spec.WrapDraw (over)
 
@@ -39,5 +39,51 @@ theorem executed_rich_draw_shows_the_lines (lb : Nat → Nat → Bool) (maxW max
     rw [hd] at h1; simp only [WrapDraw.ofExcept, Drawn.ok.injEq] at h1; subst h1
     have hsoft : (richRo maxW (ls.map (·.map toWin))).soft = ls.map (·.map toWin) := rfl
     rw [hsoft, hd]
+
+theorem restyle_toWinSt (st : Nat) (l : List Cell) : (l.map (toWinSt st)).map (restyle st) = l.map (toWinSt st) := by
+  induction l with
+  | nil => rfl
+  | cons c r ih => simp [restyle, toWinSt, ih]
+
+/-- **executed_text_draw_shows_the_lines.** The same for `Text`: the regenerated bodies of `Text.drawSoftwrap` and
+`Text.findContainerSize`, executed on the lines of the plain scanner model (any segmenter; `ctx.Characters` as `expand`), return a
+surface filled with the widget's style whose row `y` shows line `y` in that style. -/
+theorem executed_text_draw_shows_the_lines {σ : Type} (seg : σ → List Cell → Nat × Bool × σ) (st0 : σ)
+    (expand : Cell → List Cell) (style : Nat) (maxW maxH : UInt16) (cells : List Cell)
+    (ls : List (List Cell)) (h : plainLines seg maxW.toNat cells st0 = .ok ls)
+    (hw : ∀ l ∈ ls, sumW (l.flatMap expand) < 65536) (scr : Window.Screen) :
+    ∃ s, (run (textRo maxW style (ls.map fun l => (l.flatMap expand).map (toWinSt style)))
+            Gen.SurfaceBodies.textDrawSoftwrap Gen.SurfaceBodies.textDrawSoftwrapParams
+            [.wid 0, .ctx (ctxOf maxW maxH)] scr).map (·.1) = .ok (.tup (.surf s) .nil) ∧
+      s.h.toNat = min ls.length maxH.toNat ∧
+      ∀ x y, x < s.w.toNat → y < s.h.toNat →
+        cellAt s x y = over (((ls.getD y []).flatMap expand).map (toWinSt style)) 0
+          (fun _ => some { (default : Window.Cell) with st := style }) x := by
+  obtain ⟨s, h1, h2, _, h5⟩ := text_draw_rows seg st0 expand style maxW maxH cells ls h hw
+  refine ⟨s, ?_, h2, h5⟩
+  have hL : (ls.map fun l => (l.flatMap expand).map (toWinSt style)).map (List.map (restyle style))
+      = ls.map fun l => (l.flatMap expand).map (toWinSt style) := by
+    simp only [List.map_map, Function.comp_def]
+    exact List.map_congr_left (fun l _ => List.map_congr_left (fun c _ => by simp [restyle, toWinSt]))
+  have hsz := textFindContainerSize_soft_body_eq_model
+    ({ noRo with
+        fields := fun f => if f = "Softwrap" then some (.bool true) else if f = "Content" then some .text
+                           else if f = "Style" then some (.sty style) else none,
+        soft := ls.map fun l => (l.flatMap expand).map (toWinSt style), wrapW := maxW } : Ro)
+    (ctxOf maxW maxH) (Window.Screen.resize 0 0) (by simp) (by simp) rfl
+  rw [textDrawSoftwrap_is_drawText (textRo maxW style (ls.map fun l => (l.flatMap expand).map (toWinSt style))) (ctxOf maxW maxH) style scr
+    (by simp [textRo]) (by simp [textRo])
+    (by
+      have hsoft : (textRo maxW style (ls.map fun l => (l.flatMap expand).map (toWinSt style))).soft
+          = ls.map fun l => (l.flatMap expand).map (toWinSt style) := rfl
+      rw [hsoft, hL]
+      simp only [textRo]; simp; exact hsz) rfl]
+  have hsoft : (textRo maxW style (ls.map fun l => (l.flatMap expand).map (toWinSt style))).soft
+      = ls.map fun l => (l.flatMap expand).map (toWinSt style) := rfl
+  rw [hsoft, hL]
+  simp only [textDraw, h, srcArith_exact] at h1
+  cases hd : Layout.drawText exactA (Layout.textMode false style) (ctxOf maxW maxH) (ls.map fun l => (l.flatMap expand).map (toWinSt style)) with
+  | error p => rw [hd] at h1; simp [WrapDraw.ofExcept] at h1
+  | ok s' => rw [hd] at h1; simp only [WrapDraw.ofExcept, Drawn.ok.injEq] at h1; subst h1; rfl
 
 end VaxisModel.Props.C16Exec
